@@ -253,3 +253,208 @@ fn one(ctx: &Ctx, rng: &mut StdRng, b: &Value, only: &[&'static str], rep: &mut 
         _ => {}
     }
 }
+
+
+// ---- implementation -> spec: random recorded exchanges for Trace_Exchange.tla ---------------------------------
+
+struct Planned {
+    attempt: u64,
+    react: &'static str, // "none" = not answered by itself
+}
+
+/// Random protocol, retry count and server reactions; the script is built by following the control flow of Exchange.tla;
+/// what the client really did is recorded from the transport hook and projected onto the specification's alphabet.
+pub fn trace_random(ctx: &Ctx, seed: u64, runs: usize, out: &mut Vec<Value>, rep: &mut Report) {
+    let mut rng = StdRng::seed_from_u64(seed);
+    let protos = ["quake1", "quake2", "quake3", "gs1", "gs2", "gs3", "jc2m", "java", "bedrock", "legacy16", "legacy14", "legacyb18",
+                  "mindustry", "savage2", "ffow"];
+    for _ in 0 .. runs {
+        let p = protos[rng.gen_range(0 .. protos.len())];
+        let r = [0usize, 0, 1, 1, 2, 3, 5][rng.gen_range(0 .. 7)];
+        let tcp = matches!(p, "java" | "legacy16" | "legacy14" | "legacyb18");
+        let steps: &[&str] = match p {
+            "gs3" | "jc2m" => &["send", "recv", "send", "recv"],
+            "java" => &["send", "send", "send", "recv"],
+            _ => &["send", "recv"],
+        };
+        let max_attempts = if p == "savage2" { 1 } else { r as u64 + 1 };
+        let cands: Vec<&Value> = ctx.layouts.all.iter().filter(|l| l["layout"]["entry"] == p).collect();
+        let mut conns: Vec<Vec<ReactionJ>> = vec![Vec::new()];
+        let mut planned: Vec<Planned> = Vec::new();
+        let mut chal_of_attempt: std::collections::HashMap<u64, i32> = Default::default();
+        let mut round_bytes: std::collections::HashMap<(u64, u64), [u8; 4]> = Default::default();
+        let mut attempt = 1u64;
+        'query: loop {
+            let l = cands[rng.gen_range(0 .. cands.len())];
+            let bb = proto::build(&mut rng, l);
+            if let Some(c) = bb.values.get("__chal").and_then(|c| c.as_i64()) {
+                chal_of_attempt.insert(attempt, c as i32);
+            }
+            let mut i = 0usize;
+            let mut send_in_attempt = 0usize;
+            let mut recv_in_attempt = 0usize;
+            let mut rounds = 0u64;
+            let mut timed_out = false;
+            while i < steps.len() {
+                // a send step
+                let answered = i + 1 < steps.len() && steps[i + 1] == "recv";
+                let mut reaction = ReactionJ::default();
+                if !answered {
+                    planned.push(Planned { attempt, react: "none" });
+                    conns.last_mut().unwrap().push(reaction);
+                    send_in_attempt += 1;
+                    i += 1;
+                    continue;
+                }
+                let o = match rng.gen_range(0 .. 100) {
+                    0 ..= 54 => "good",
+                    55 ..= 79 => "silent",
+                    80 ..= 89 => "bad",
+                    _ => if p == "ffow" && rounds < 4 { "chal" } else { "good" },
+                };
+                match o {
+                    "good" => {
+                        let idx = if p == "java" { 1 } else if p == "ffow" { 0 } else { send_in_attempt };
+                        reaction.batch = bb.batches.get(idx).cloned().unwrap_or_default().iter().map(|d| hex(d)).collect();
+                        reaction.close = tcp;
+                    }
+                    "bad" => {
+                        let m = malformed(p, recv_in_attempt);
+                        reaction.batch = if m.is_empty() && tcp { vec![] } else { vec![hex(&m)] };
+                        reaction.close = tcp;
+                    }
+                    "chal" => {
+                        rounds += 1;
+                        let c = crate::valve::strat_challenge(&mut rng, None);
+                        round_bytes.insert((attempt, rounds), c);
+                        reaction.batch = vec![hex(&crate::valve::challenge_packet(c))];
+                    }
+                    _ => {}
+                }
+                planned.push(Planned { attempt, react: o });
+                conns.last_mut().unwrap().push(reaction);
+                send_in_attempt += 1;
+                recv_in_attempt += 1;
+                match o {
+                    "good" => i += 2,
+                    "chal" => {} // the same request again
+                    "bad" => break 'query,
+                    _ => {
+                        timed_out = true;
+                        break;
+                    }
+                }
+            }
+            if !timed_out || attempt >= max_attempts {
+                break;
+            }
+            attempt += 1;
+            if p == "mindustry" {
+                conns.push(Vec::new());
+            }
+        }
+        let script = ScriptJ {
+            conns: conns.into_iter().map(|on_send| ConnJ { refuse: false, on_send }).collect(),
+        };
+        let rec = proto::call(p, &script, 27015, r, None);
+        rep.evaluations += 1;
+        rep.distinct.insert(hash_of(&(p, r, planned.iter().map(|x| x.react).collect::<Vec<_>>())));
+        let start = out.len();
+        out.push(json!({"ev":"Call","p":p,"r":r}));
+        let family: Vec<&str> = match p {
+            "gs3" => vec!["gs3.handshake", "gs3.data"],
+            "jc2m" => vec!["gs3.handshake", "jc2m.data"],
+            "java" => vec!["java.handshake", "java.status", "java.ping"],
+            "ffow" => vec!["ffow.info", "ffow.infochal"],
+            "gs1" => vec!["gs1.status"],
+            "gs2" => vec!["gs2.query"],
+            "quake1" => vec!["quake1.status"],
+            "quake2" => vec!["quake2.status"],
+            "quake3" => vec!["quake3.status"],
+            "bedrock" => vec!["bedrock.ping"],
+            "legacy16" => vec!["legacy16.ping"],
+            "legacy14" => vec!["legacy14.ping"],
+            "legacyb18" => vec!["legacyb18.ping"],
+            "mindustry" => vec!["mindustry.ping"],
+            _ => vec!["savage2.info"],
+        };
+        let mut send_no = 0usize;
+        let mut pending: Vec<bool> = Vec::new();
+        let mut last_react = "none";
+        let mut opens = 0u64;
+        let flush = |pending: &mut Vec<bool>, react: &str, out: &mut Vec<Value>| {
+            let pat: Vec<bool> = pending.drain(..).collect();
+            if pat.is_empty() {
+                return;
+            }
+            let all_data = pat.iter().all(|x| *x);
+            let ev = match (react, pat.as_slice()) {
+                ("good", _) if all_data => json!({"ev":"Recv","out":"good"}),
+                ("bad", [true]) => json!({"ev":"Recv","out":"bad"}),
+                ("chal", [true]) => json!({"ev":"Recv","out":"chal"}),
+                ("silent", [false]) => json!({"ev":"Recv","out":"timeout"}),
+                (_, pt) => json!({"ev":"RecvUnexplained","react":react,"pattern":pt}),
+            };
+            out.push(ev);
+        };
+        for e in &rec.events {
+            match e {
+                hook::Event::Open { .. } => opens += 1,
+                hook::Event::Send { data, .. } => {
+                    flush(&mut pending, last_react, out);
+                    let plan = planned.get(send_no).or(planned.last());
+                    let a = plan.map(|x| x.attempt).unwrap_or(1);
+                    let mut tpl = "unknown";
+                    let mut chal = 0u64;
+                    let mut round = 0u64;
+                    for t in &family {
+                        let items = ctx.templates.get(t)["items"].as_array().unwrap();
+                        if let Some(slots) = match_items(items, data) {
+                            tpl = t;
+                            if matches!(*t, "gs3.data" | "jc2m.data") {
+                                // (a challenge of 0 is sent as "no challenge": the handshake reply of this attempt issued it)
+                                let want = chal_of_attempt.get(&a).copied().unwrap_or(0);
+                                let wantv = if want == 0 { Value::Null } else { json!(want) };
+                                chal = if slots["chal"] == wantv { a } else { 99 };
+                            }
+                            if *t == "ffow.infochal" {
+                                // the challenge of the round just played in this attempt, nothing older
+                                let got = slots["chal"].as_str().unwrap_or("").to_string();
+                                let played = planned[.. send_no.min(planned.len())].iter().rev().take_while(|x| x.attempt == a && x.react == "chal").count() as u64;
+                                round = match round_bytes.get(&(a, played)) {
+                                    Some(c) if played > 0 && hex(c) == got => played,
+                                    _ => 99,
+                                };
+                            }
+                            break;
+                        }
+                    }
+                    last_react = plan.map(|x| x.react).unwrap_or("silent");
+                    if send_no >= planned.len() {
+                        last_react = "silent"; // beyond the script: nothing answers
+                    }
+                    out.push(json!({"ev":"Send","tpl":tpl,"chal":chal,"round":round,"react":last_react}));
+                    send_no += 1;
+                }
+                hook::Event::Recv { out: o, .. } => pending.push(matches!(o, hook::RecvOut::Data(_))),
+            }
+        }
+        flush(&mut pending, last_react, out);
+        let case = json!({"kind":"exchange-trace","proto":p,"r":r,"script":script});
+        match &rec.outcome {
+            Outcome::Ok(_) => out.push(json!({"ev":"Return","state":"ok","class":"","opens":opens})),
+            Outcome::Err(k) => {
+                let class = if k == "PacketReceive" || k == "PacketSend" { "timeout" } else { "malformed" };
+                out.push(json!({"ev":"Return","state":"err","class":class,"opens":opens}));
+            }
+            Outcome::Panic { msg } => {
+                rep.violation("C01", &format!("{p}: panic {}", crate::valve::first_line(msg)), case);
+                out.truncate(start);
+            }
+            Outcome::Hang => {
+                rep.violation("C01", &format!("{p}: does not return"), case);
+                out.truncate(start);
+            }
+        }
+    }
+}
